@@ -2,7 +2,11 @@
    consistent_* scores are non-negative and vanish at fcst = obs.
    Only statements; every proof is `exact <lemma>` into coq/proofs.  Q-level statements are axiom-free;
    the integral statements (is_RInt, Coquelicot) use the standard Reals axioms (see Print Assumptions). *)
-From V Require Import lib.Tree gen.Gen_C10_kern model.C10 proofs.C10.
+From Coq Require Import Reals Qreals.
+From Coquelicot Require Import Coquelicot.
+From V Require Import lib.Tree gen.Gen_C10_kern model.C10 model.C11 proofs.C10 proofs.C10_trap proofs.C10_ends
+                      proofs.C10_RInt proofs.C11_RInt proofs.C10_RIntQ.
+Open Scope Q_scope.
 
 (* ---- the regenerated rows of Table B1 are the documented piecewise formulas, end points included ---- *)
 Theorem C10_g_rect_is_table_B1 : forall a b x : Q,
@@ -96,6 +100,156 @@ Theorem C10_tw_partition_rect : forall a b c alpha v f o : Q, a <= b -> b <= c -
 Proof. intros. repeat split; [apply tw_partition_rect_sq | apply tw_partition_rect_abs | apply tw_partition_rect_quantile
   | apply tw_partition_rect_expectile | apply tw_partition_rect_huber]; assumption. Qed.
 Print Assumptions C10_tw_partition_rect.
+
+(* every rectangular score is non-negative and zero at fcst = obs (axiom-free) *)
+Theorem C10_tw_rect_nonneg : forall a b alpha v f o : Q, a <= b -> 0 < alpha < 1 -> 0 <= v ->
+  (0 <= q_tw_sq_rect a b f o /\ 0 <= q_tw_abs_rect a b f o /\ 0 <= q_tw_quantile_rect a b alpha f o /\
+   0 <= q_tw_expectile_rect a b alpha f o /\ 0 <= q_tw_huber_rect a b v f o) /\
+  (f == o -> q_tw_sq_rect a b f o == 0 /\ q_tw_abs_rect a b f o == 0 /\ q_tw_quantile_rect a b alpha f o == 0 /\
+   q_tw_expectile_rect a b alpha f o == 0 /\ q_tw_huber_rect a b v f o == 0).
+Proof. exact tw_rect_nonneg. Qed.
+Print Assumptions C10_tw_rect_nonneg.
+
+(* ---- weight one everywhere (the finite end points the code substitutes for -inf / +inf lie beyond the data) ---- *)
+Theorem C10_tw_weight_one : forall L U alpha v f o : Q, 0 <= v -> L <= f -> L <= o -> f <= U -> o <= U ->
+  q_tw_sq_rect L U f o == (f - o) * (f - o) /\
+  q_tw_abs_rect L U f o == Qabs (f - o) /\
+  q_tw_quantile_rect L U alpha f o == (if Qltb o f then (1 - alpha) * (f - o) else alpha * (o - f)) /\
+  q_tw_expectile_rect L U alpha f o == (if Qltb o f then 1 - alpha else alpha) * ((f - o) * (f - o)) /\
+  q_tw_huber_rect L U v f o == (if Qle_bool (Qabs (f - o)) v then (1 # 2) * ((f - o) * (f - o)) else v * (Qabs (f - o) - (1 # 2) * v)).
+Proof. intros. repeat split; [apply tw_weight_one_sq | apply tw_weight_one_abs | apply tw_weight_one_quantile
+  | apply tw_weight_one_expectile | apply tw_weight_one_huber]; assumption. Qed.
+Print Assumptions C10_tw_weight_one.
+
+(* ---- soundness of the replacement of infinite end points: an end point at or beyond the data can be moved freely ---- *)
+Theorem C10_inf_replacement_sound_rect : forall a1 a2 b1 b2 alpha v f o : Q,
+  a1 <= f -> a1 <= o -> a2 <= f -> a2 <= o -> f <= b1 -> o <= b1 -> f <= b2 -> o <= b2 -> 0 <= v ->
+  q_tw_sq_rect a1 b1 f o == q_tw_sq_rect a2 b2 f o /\ q_tw_abs_rect a1 b1 f o == q_tw_abs_rect a2 b2 f o /\
+  q_tw_quantile_rect a1 b1 alpha f o == q_tw_quantile_rect a2 b2 alpha f o /\
+  q_tw_expectile_rect a1 b1 alpha f o == q_tw_expectile_rect a2 b2 alpha f o /\
+  q_tw_huber_rect a1 b1 v f o == q_tw_huber_rect a2 b2 v f o.
+Proof. intros a1 a2 b1 b2 alpha v f o ? ? ? ? ? ? ? ? ?.
+ destruct (rect_lower_irrelevant a1 a2 b1 alpha v f o) as (E1 & E2 & E3 & E4 & E5); auto.
+ destruct (rect_upper_irrelevant a2 b1 b2 alpha v f o) as (F1 & F2 & F3 & F4 & F5); auto.
+ repeat split; etransitivity; eauto. Qed.
+Print Assumptions C10_inf_replacement_sound_rect.
+
+Theorem C10_inf_replacement_sound_trap_lower : forall a1 b1 a2 b2 c d alpha v f o : Q,
+  a1 < b1 -> a2 < b2 -> b1 <= f -> b1 <= o -> b2 <= f -> b2 <= o -> b1 < c -> b2 < c -> c < d -> 0 <= v ->
+  q_tw_sq_trap a1 b1 c d f o == q_tw_sq_trap a2 b2 c d f o /\ q_tw_abs_trap a1 b1 c d f o == q_tw_abs_trap a2 b2 c d f o /\
+  q_tw_quantile_trap a1 b1 c d alpha f o == q_tw_quantile_trap a2 b2 c d alpha f o /\
+  q_tw_expectile_trap a1 b1 c d alpha f o == q_tw_expectile_trap a2 b2 c d alpha f o /\
+  q_tw_huber_trap a1 b1 c d v f o == q_tw_huber_trap a2 b2 c d v f o.
+Proof. exact trap_lower_irrelevant. Qed.
+Print Assumptions C10_inf_replacement_sound_trap_lower.
+
+Theorem C10_inf_replacement_sound_trap_upper : forall a b c1 d1 c2 d2 alpha v f o : Q,
+  c1 < d1 -> c2 < d2 -> f < c1 -> o < c1 -> f < c2 -> o < c2 -> b < c1 -> b < c2 -> a < b -> 0 <= v ->
+  q_tw_sq_trap a b c1 d1 f o == q_tw_sq_trap a b c2 d2 f o /\ q_tw_abs_trap a b c1 d1 f o == q_tw_abs_trap a b c2 d2 f o /\
+  q_tw_quantile_trap a b c1 d1 alpha f o == q_tw_quantile_trap a b c2 d2 alpha f o /\
+  q_tw_expectile_trap a b c1 d1 alpha f o == q_tw_expectile_trap a b c2 d2 alpha f o /\
+  q_tw_huber_trap a b c1 d1 v f o == q_tw_huber_trap a b c2 d2 v f o.
+Proof. exact trap_upper_irrelevant. Qed.
+Print Assumptions C10_inf_replacement_sound_trap_upper.
+
+(* the values the model of _auxiliary_funcs substitutes are strictly beyond every finite forecast / observation *)
+Theorem C10_replacement_points_beyond_data : forall (F O : list xv) (vb va : xv) (x : Q),
+  Forall (fun v => xisinf v = false) F -> Forall (fun v => xisinf v = false) O ->
+  (exists y, In (XFin y) F) -> (exists y, In (XFin y) O) -> In (XFin x) (F ++ O) ->
+  (vb <> XInf false -> exists q, xsub (pymin3 (nanmin F) (nanmin O) vb) X1 = XFin q /\ q < x) /\
+  (va <> XInf true -> exists q, xadd (pymax3 (nanmax F) (nanmax O) va) X1 = XFin q /\ x < q).
+Proof. intros. split; intro; [eapply lower_replacement_sound | eapply upper_replacement_sound]; eauto. Qed.
+Print Assumptions C10_replacement_points_beyond_data.
+
+(* ---- partition of unity, trapezoidal: trapezoid (a,b,c,d) + left ramp (L2,L1,a,b) + right ramp (c,d,U1,U2) = unweighted score ---- *)
+Theorem C10_tw_partition_trap : forall L2 L1 a b c d U1 U2 alpha v f o : Q,
+  L2 < L1 /\ L1 < a /\ a < b /\ b < c /\ c < d /\ d < U1 /\ U1 < U2 -> L1 <= f < U1 -> L1 <= o < U1 -> 0 <= v ->
+  q_tw_sq_trap L2 L1 a b f o + q_tw_sq_trap a b c d f o + q_tw_sq_trap c d U1 U2 f o == q_sq_err f o /\
+  q_tw_abs_trap L2 L1 a b f o + q_tw_abs_trap a b c d f o + q_tw_abs_trap c d U1 U2 f o == q_abs_err f o /\
+  q_tw_quantile_trap L2 L1 a b alpha f o + q_tw_quantile_trap a b c d alpha f o + q_tw_quantile_trap c d U1 U2 alpha f o == q_pinball alpha f o /\
+  q_tw_expectile_trap L2 L1 a b alpha f o + q_tw_expectile_trap a b c d alpha f o + q_tw_expectile_trap c d U1 U2 alpha f o == q_asym_sq alpha f o /\
+  q_tw_huber_trap L2 L1 a b v f o + q_tw_huber_trap a b c d v f o + q_tw_huber_trap c d U1 U2 v f o == q_huber v f o.
+Proof. intros L2 L1 a b c d U1 U2 alpha v f o R Hf Ho Hv. repeat split;
+ [apply tw_partition_trap_sq | apply tw_partition_trap_abs | apply tw_partition_trap_quantile
+ | apply tw_partition_trap_expectile | apply tw_partition_trap_huber]; assumption. Qed.
+Print Assumptions C10_tw_partition_trap.
+
+(* =====================  integral statements (Coquelicot is_RInt; standard Reals axioms)  ===================== *)
+(* w_rect / w_trap : the weight functions; esR_* : the Murphy elementary scores as real functions of theta (proofs/C10_RInt.v) *)
+
+(* g is an antiderivative of the weight *)
+Theorem C10_g_rect_is_antiderivative : forall a b x y : Q, a < b -> x <= y ->
+  is_RInt (w_rect (Q2R a) (Q2R b)) (Q2R x) (Q2R y) (Q2R (qg_rect a b y - qg_rect a b x)).
+Proof. exact g_rect_is_antiderivative. Qed.
+Print Assumptions C10_g_rect_is_antiderivative.
+
+Theorem C10_g_trap_is_antiderivative : forall a b c d x y : Q, a < b -> b < c -> c < d -> x <= y ->
+  is_RInt (w_trap (Q2R a) (Q2R b) (Q2R c) (Q2R d)) (Q2R x) (Q2R y) (Q2R (qg_trap a b c d y - qg_trap a b c d x)).
+Proof. exact g_trap_is_antiderivative. Qed.
+Print Assumptions C10_g_trap_is_antiderivative.
+
+(* phi is the double antiderivative: int_x^y w(t) (y - t) dt = (phi y - phi x - phi' x (y - x)) / 4 *)
+Theorem C10_phi_rect_is_double_antiderivative : forall a b x y : Q, a < b -> x <= y ->
+  is_RInt (fun t => w_rect (Q2R a) (Q2R b) t * (Q2R y - t))%R (Q2R x) (Q2R y)
+          (Q2R ((qphi_rect a b y - qphi_rect a b x - qphip_rect a b x * (y - x)) / 4)).
+Proof. exact phi_rect_is_double_antiderivative. Qed.
+Print Assumptions C10_phi_rect_is_double_antiderivative.
+
+Theorem C10_phi_trap_is_double_antiderivative : forall a b c d x y : Q, a < b -> b < c -> c < d -> x <= y ->
+  is_RInt (fun t => w_trap (Q2R a) (Q2R b) (Q2R c) (Q2R d) t * (Q2R y - t))%R (Q2R x) (Q2R y)
+          (Q2R ((qphi_trap a b c d y - qphi_trap a b c d x - qphip_trap a b c d x * (y - x)) / 4)).
+Proof. exact phi_trap_is_double_antiderivative. Qed.
+Print Assumptions C10_phi_trap_is_double_antiderivative.
+
+(* the integrand: at rational arguments esR_* is the (specification of the) regenerated Murphy elementary score *)
+Theorem C10_elementary_score_link : forall alpha a f o t : Q,
+  Q2R (es_quantile alpha f o t) = esR_quantile (Q2R alpha) (Q2R f) (Q2R o) (Q2R t) /\
+  Q2R (es_expectile alpha f o t) = esR_expectile (Q2R alpha) (Q2R f) (Q2R o) (Q2R t) /\
+  Q2R (es_huber alpha a f o t) = esR_huber (Q2R alpha) (Q2R a) (Q2R f) (Q2R o) (Q2R t).
+Proof. intros. repeat split; [apply es_quantile_bridge | apply es_expectile_bridge | apply es_huber_bridge]. Qed.
+Print Assumptions C10_elementary_score_link.
+
+(* the five scores = integral over theta in any [lo, hi] containing fcst and obs of  weight x elementary score
+   (constant factors: tw_squared_error = 4 x expectile(1/2), tw_absolute_error = 2 x quantile(1/2), tw_expectile = 2 x expectile(alpha),
+    tw_huber_loss = 2 x huber(1/2), because phi = 2 x^2 in Taggart's convention) *)
+Theorem C10_tw_rect_is_integral : forall a b alpha v f o lo hi : Q, a < b -> 0 <= v -> lo <= f <= hi -> lo <= o <= hi ->
+  let W := w_rect (Q2R a) (Q2R b) in let F := Q2R f in let O := Q2R o in
+  is_RInt (fun t => 4 * (W t * esR_expectile (1 / 2) F O t))%R (Q2R lo) (Q2R hi) (Q2R (q_tw_sq_rect a b f o)) /\
+  is_RInt (fun t => 2 * (W t * esR_quantile (1 / 2) F O t))%R (Q2R lo) (Q2R hi) (Q2R (q_tw_abs_rect a b f o)) /\
+  is_RInt (fun t => W t * esR_quantile (Q2R alpha) F O t)%R (Q2R lo) (Q2R hi) (Q2R (q_tw_quantile_rect a b alpha f o)) /\
+  is_RInt (fun t => 2 * (W t * esR_expectile (Q2R alpha) F O t))%R (Q2R lo) (Q2R hi) (Q2R (q_tw_expectile_rect a b alpha f o)) /\
+  is_RInt (fun t => 2 * (W t * esR_huber (1 / 2) (Q2R v) F O t))%R (Q2R lo) (Q2R hi) (Q2R (q_tw_huber_rect a b v f o)).
+Proof. exact tw_rect_is_integral. Qed.
+Print Assumptions C10_tw_rect_is_integral.
+
+Theorem C10_tw_trap_is_integral : forall a b c d alpha v f o lo hi : Q, a < b -> b < c -> c < d -> 0 <= v ->
+  lo <= f <= hi -> lo <= o <= hi ->
+  let W := w_trap (Q2R a) (Q2R b) (Q2R c) (Q2R d) in let F := Q2R f in let O := Q2R o in
+  is_RInt (fun t => 4 * (W t * esR_expectile (1 / 2) F O t))%R (Q2R lo) (Q2R hi) (Q2R (q_tw_sq_trap a b c d f o)) /\
+  is_RInt (fun t => 2 * (W t * esR_quantile (1 / 2) F O t))%R (Q2R lo) (Q2R hi) (Q2R (q_tw_abs_trap a b c d f o)) /\
+  is_RInt (fun t => W t * esR_quantile (Q2R alpha) F O t)%R (Q2R lo) (Q2R hi) (Q2R (q_tw_quantile_trap a b c d alpha f o)) /\
+  is_RInt (fun t => 2 * (W t * esR_expectile (Q2R alpha) F O t))%R (Q2R lo) (Q2R hi) (Q2R (q_tw_expectile_trap a b c d alpha f o)) /\
+  is_RInt (fun t => 2 * (W t * esR_huber (1 / 2) (Q2R v) F O t))%R (Q2R lo) (Q2R hi) (Q2R (q_tw_huber_trap a b c d v f o)).
+Proof. exact tw_trap_is_integral. Qed.
+Print Assumptions C10_tw_trap_is_integral.
+
+(* trapezoid: g non-decreasing and phi convex with subgradient phi' (from the integral form: the weight is non-negative);
+   hence every trapezoidal score is non-negative and zero at fcst = obs *)
+Theorem C10_trap_admissible : forall a b c d : Q, a < b -> b < c -> c < d ->
+  (forall x y, x <= y -> qg_trap a b c d x <= qg_trap a b c d y) /\
+  (forall x y, qphip_trap a b c d x * (y - x) <= qphi_trap a b c d y - qphi_trap a b c d x) /\
+  (forall x y, x <= y -> qphip_trap a b c d x <= qphip_trap a b c d y).
+Proof. intros a b c d H1 H2 H3. split; [exact (qg_trap_nondecreasing a b c d H1 H2 H3) | split;
+  [exact (qphi_trap_subgradient a b c d H1 H2 H3) | exact (qphip_trap_nondecreasing a b c d H1 H2 H3)]]. Qed.
+Print Assumptions C10_trap_admissible.
+
+Theorem C10_tw_trap_nonneg : forall a b c d alpha v f o : Q, a < b -> b < c -> c < d -> 0 < alpha < 1 -> 0 <= v ->
+  (0 <= q_tw_sq_trap a b c d f o /\ 0 <= q_tw_abs_trap a b c d f o /\ 0 <= q_tw_quantile_trap a b c d alpha f o /\
+   0 <= q_tw_expectile_trap a b c d alpha f o /\ 0 <= q_tw_huber_trap a b c d v f o) /\
+  (f == o -> q_tw_sq_trap a b c d f o == 0 /\ q_tw_abs_trap a b c d f o == 0 /\ q_tw_quantile_trap a b c d alpha f o == 0 /\
+   q_tw_expectile_trap a b c d alpha f o == 0 /\ q_tw_huber_trap a b c d v f o == 0).
+Proof. exact tw_trap_nonneg. Qed.
+Print Assumptions C10_tw_trap_nonneg.
 
 (* non-vacuity *)
 Example C10_ex_rect_endpoint : gen_g_rect (XFin 0) (XFin 2) (XFin 2) =x= XFin 2 /\ gen_g_rect (XFin 0) (XFin 2) (XFin 0) =x= XFin 0.
